@@ -13,6 +13,7 @@
 //     fixed point of String∘FromString; GetSpecific(purl.Name, purl.Type) and
 //     GetAllOfType(purl.Type) contain the package (pointer identity)
 //   - proto record: name, version, locations, every PURL field + PURL string, layer details verbatim
+//     also in results with two packages and two findings that target packages (16 layer relations);
 //     (layer details range over {nil, full, empty diff ID, empty command, index 0, base image yes/no, all-zero})
 //   - CDX component: name, version, PURL string, locations (evidence occurrences) verbatim
 //   - SPDX package (exists when the PURL has a name and a version): PURL locator verbatim,
@@ -51,6 +52,7 @@ import (
 
 	sproto "github.com/google/osv-scalibr/binary/proto"
 	"github.com/google/osv-scalibr/converter"
+	"github.com/google/osv-scalibr/detector"
 	"github.com/google/osv-scalibr/extractor"
 	"github.com/google/osv-scalibr/inventory"
 	"github.com/google/osv-scalibr/packageindex"
@@ -260,6 +262,10 @@ func judgeOne(it *harvest.Item) (vs []viol, pu *purl.PackageURL, purlPanicked bo
 				add("proto-field:layer-details", "package without layer details got %v in the proto", pk[0].GetLayerDetails())
 			}
 		}
+		// results with several packages (and findings that target packages): each record keeps
+		// its own package's layer details, for every relation between two layers
+		// {same, different diff ID} x {same, different index} x {.. command} x {.. in-base-image}.
+		judgeMulti(p, pu, wantPurl, add)
 	}
 
 	// SPDX
@@ -341,6 +347,69 @@ func judgeOne(it *harvest.Item) (vs []viol, pu *purl.PackageURL, purlPanicked bo
 		}
 	}
 	return vs, pu, false
+}
+
+func sameLD(g *spb.LayerDetails, ld *extractor.LayerDetails) bool {
+	return int(g.GetIndex()) == ld.Index && g.GetDiffId() == ld.DiffID && g.GetCommand() == ld.Command && g.GetInBaseImage() == ld.InBaseImage
+}
+
+// judgeMulti converts scan results holding two copies of the package with layer details (A, B),
+// a finding whose target is a third copy with layer C (diff ID of A, everything else different)
+// and a finding that targets the first copy itself, for all 16 relations between A and B.
+func judgeMulti(p *extractor.Package, pu *purl.PackageURL, wantPurl string, add func(key, format string, a ...any)) {
+	a := extractor.LayerDetails{Index: 1, DiffID: "sha256:aaaa", Command: "RUN a", InBaseImage: false}
+	for m := 0; m < 16; m++ {
+		b := a
+		if m&1 != 0 {
+			b.DiffID = "sha256:bbbb"
+		}
+		if m&2 != 0 {
+			b.Index = 2
+		}
+		if m&4 != 0 {
+			b.Command = "RUN b"
+		}
+		if m&8 != 0 {
+			b.InBaseImage = true
+		}
+		c := extractor.LayerDetails{Index: 9, DiffID: a.DiffID, Command: "COPY target", InBaseImage: true}
+		pa, pb, pc := *p, *p, *p
+		la, lb, lc := a, b, c
+		pa.LayerDetails, pb.LayerDetails, pc.LayerDetails = &la, &lb, &lc
+		adv := &detector.Advisory{ID: &detector.AdvisoryID{Publisher: "VERIF", Reference: "V-1"}, Type: detector.TypeVulnerability, Title: "t", Sev: &detector.Severity{Severity: detector.SeverityMedium}}
+		res := scanResult(&pa)
+		res.Inventory.Packages = []*extractor.Package{&pa, &pb}
+		res.Inventory.Findings = []*detector.Finding{
+			{Adv: adv, Target: &detector.TargetDetails{Package: &pc, Location: []string{"f"}}},
+			{Adv: adv, Target: &detector.TargetDetails{Package: &pa}},
+		}
+		var out *spb.ScanResult
+		var err error
+		if pv, st := ev.Recover(func() { out, err = sproto.ScanResultToProto(res) }); pv != nil {
+			add("panic:proto:"+ev.PanicSite(st), "ScanResultToProto panicked on a 2-package result with findings: %v", pv)
+			return
+		} else if err != nil {
+			add("proto-error", "ScanResultToProto failed on a 2-package result with findings: %v", err)
+			return
+		}
+		pk := out.GetInventory().GetPackages()
+		fs := out.GetInventory().GetFindings()
+		if len(pk) != 2 || len(fs) != 2 || fs[0].GetTarget().GetPackage() == nil || fs[1].GetTarget().GetPackage() == nil {
+			add("proto-multi:record-count", "2 packages + 2 targeted findings became %d packages, %d findings", len(pk), len(fs))
+			return
+		}
+		recs := []*spb.Package{pk[0], pk[1], fs[0].GetTarget().GetPackage(), fs[1].GetTarget().GetPackage()}
+		want := []*extractor.LayerDetails{&la, &lb, &lc, &la}
+		role := []string{"package 0", "package 1", "target of finding 0", "target of finding 1 (= package 0)"}
+		for i, g := range recs {
+			if !sameLD(g.GetLayerDetails(), want[i]) {
+				add("proto-multi:layer-details", "result with layers A=%+v B=%+v C=%+v: %s carries %v, want %+v", la, lb, lc, role[i], g.GetLayerDetails(), *want[i])
+			}
+			if g.GetName() != p.Name || g.GetVersion() != p.Version || !eqStrs(g.GetLocations(), p.Locations) || (pu != nil && g.GetPurl().GetPurl() != wantPurl) || (pu == nil && g.GetPurl() != nil) {
+				add("proto-multi:record", "%s of a multi-package result: name/version/locations/purl %q %q %q %q differ from the package's %q %q %q %q", role[i], g.GetName(), g.GetVersion(), g.GetLocations(), g.GetPurl().GetPurl(), p.Name, p.Version, p.Locations, wantPurl)
+			}
+		}
+	}
 }
 
 // judgeGroup checks the package-index clause for a group of packages indexed together
